@@ -672,6 +672,14 @@ func runBehaviour(res *vio.Result, virtual bool, seed int64, bi int, b vio.Behav
 						w.tcpWrite(c, []byte{0, 40, 0, 4, 0x81, 0x80, 0, 1, 0, 1}, true)
 					case "zero":
 						w.tcpWrite(c, []byte{0, 0}, false)
+					case "big":
+						noise := make([]byte, 2+2000)
+						noise[0], noise[1] = 2000>>8, 2000&0xff
+						for i := 2; i < len(noise); i++ {
+							noise[i] = byte(i*131 + si)
+						}
+						noise[2], noise[3] = 0xAB, 0xCD // an id that is neither query's
+						w.tcpWrite(c, noise, false)
 					}
 				}
 			case "TcpTimeout":
